@@ -64,4 +64,14 @@ Dev_MultiSupertypeNotRequired(sh, S) ==
   /\ \A e \in S : Cardinality(sh.supers[e]) < 2 => sh.supers[e] \subseteq S
 DevOf(sh, S) == IF Dev_RootAloneRefused(sh, S) THEN "Dev_RootAloneRefused"
                 ELSE IF Dev_MultiSupertypeNotRequired(sh, S) THEN "Dev_MultiSupertypeNotRequired" ELSE ""
+
+(* A part set whose members fall into groups with no subtype / supertype link between them (two roots of separate  *)
+(* trees without the subtype that joins them) satisfies the three clauses of the statement member by member, yet    *)
+(* it is not one instance of one subtype/supertype graph; the statement is silent on it, so neither outcome is      *)
+(* demanded (three-valued oracle: "free")                                                                          *)
+Linked(sh, x, y) == x \in sh.supers[y] \/ y \in sh.supers[x]
+RECURSIVE Comp(_, _, _)
+Comp(sh, S, seen) == LET nxt == {y \in S : \E x \in seen : Linked(sh, x, y)} \ seen
+                     IN IF nxt = {} THEN seen ELSE Comp(sh, S, seen \cup nxt)
+Connected(sh, S) == S = {} \/ Comp(sh, S, {CHOOSE x \in S : TRUE}) = S
 =============================================================================
